@@ -6,7 +6,7 @@ DUT (15 %): `ULPIRegisterWindow` + `ULPIRxEventDecoder` wired exactly as `UTMITr
 cannot be triggered through the translator, it ties `read_request` to 0), for the "register-read responses never appear
 as data / as RxCmd" clause.
 
-Workload (one case = one session of 25-60 PHY activities, 1 500 - 4 000 cycles): receive packets started by DIR+NXT or by
+Workload (one case = one session of 25-60 PHY activities, 600 - 2 500 cycles): receive packets started by DIR+NXT or by
 an RxCmd with RxActive (DIR rising for it, or DIR already high), first data byte 0/1/2/3 cycles after the start, NXT
 throttling (RxCmd cycles between data bytes), RxCmds mid-packet with changing LineState, RxError RxCmds, packets ended by
 DIR falling or by an RxCmd with RxActive=0 (with further RxCmds behind it), several packets inside one DIR-high period,
@@ -48,7 +48,7 @@ RULE = ("case = session of 25-60 PHY activities (receive packets with random sta
         "with concurrent control-input changes (register writes), or a register-read session on window+decoder; "
         "non-trivial = >=1 packet of each start kind and >=1 mid-packet RxCmd (or >=3 reads); distinct = hash of all activities")
 REQUIRED_BINS = ["start_dirnxt", "start_rxcmd_dir_rising", "start_rxcmd_dir_high", "first_byte_gap0_after_rxcmd_start",
-                 "first_byte_gap0_after_dirnxt", "end_dir", "end_rxcmd", "end_rxcmd_then_more_rxcmds", "mid_packet_rxcmd",
+                 "first_byte_gap0_after_dirnxt", "end_dir", "end_rxcmd", "end_rxcmd_then_more_rxcmds", "end_rxcmd_hostdisconnect_encoding", "mid_packet_rxcmd",
                  "nxt_throttled", "rx_error_rxcmd", "idle_rxcmd_update", "chained_packets_one_dir_period", "dir_low_one_cycle",
                  "zero_length_receive", "rxcmd_while_regwrite_busy", "receive_while_regwrite_busy", "regwrite_aborted_by_dir",
                  "stale_rxactive_then_rxcmd_start", "data_looks_like_rxcmd", "with_rst_pin", "read_then_rxcmd_dir_held",
@@ -371,7 +371,11 @@ def run_translator_case(rng, tier, res):
         first_gap = rng.choice([0, 0, 1, 1, 2, 3])
         end = rng.choice(["dir", "rxcmd"])
         tail = []
+        end_event = 0
         if end == "rxcmd":
+            if rng.random() < 0.2:
+                end_event = 2           # the closing RxCmd carries RxEvent = 10 (HostDisconnect; RxActive is 0 in that encoding too)
+                res.bin("end_rxcmd_hostdisconnect_encoding")
             new_status()
             for _ in range(rng.choice([0, 0, 1, 2, 6])):
                 if rng.random() < 0.5:
@@ -385,7 +389,7 @@ def run_translator_case(rng, tier, res):
         g = gap_profile if rng.random() < 0.8 else "none"
         cyc = act_receive(rng, payload, start=start, status=status_nibble(), first_gap=first_gap, gap_profile=g,
                           mid_cmd_p=mid_cmd_p, end=end, tail_cmds=tail, idle_status=status_nibble(),
-                          garbage=phy.garbage)
+                          garbage=phy.garbage, end_event=end_event)
         if rng.random() < 0.15 and n >= 2:
             # an RxError RxCmd in the middle of the packet (RxActive stays high)
             idx = [i for i, c in enumerate(cyc) if c[2] == "data"]
@@ -445,9 +449,6 @@ def run_translator_case(rng, tier, res):
                     res.bin("chained_packets_one_dir_period")
                     if fg == 0 and n:
                         res.bin("first_byte_gap0_after_rxcmd_start")
-            if any(c[2] == "cmd" for c in cyc):
-                # mid-packet RxCmds / throttling bins are derived from the wire log after the run
-                pass
             delay = rng.choice([0, 0, 1, 2, 3, rng.randint(0, 12), rng.randint(0, 40)])
             if delay == 0 and i:
                 res.bin("dir_low_one_cycle")
@@ -759,11 +760,13 @@ def run_read_case(rng, tier, res):
     if b.hit_max_cycles:
         res.violation("harness_max_cycles", "read session did not finish")
         return
-    # last_rx_command must follow the RxCmds and never take the register data
+    # last_rx_command must follow the RxCmds and never take the register data.  The gating of the decoder with
+    # `window.busy` is this harness' own glue (copied from UTMITranslator), so RxCmds presented while the window is busy
+    # are expected to be skipped here (their loss through the real wiring is judged in the translator sessions).
     n = len(wire)
     s_act, s_cmd, q_act, q_cmd, act_reason, cmd_reason, data, notes = reference_pass(wire, busy)
     for c in range(W + 2, n):
-        cands = set(s_cmd[c - 1 - W:c])
+        cands = set(q_cmd[c - 1 - W:c])
         if None in cands:
             continue
         got = obs[c][0]
@@ -775,21 +778,15 @@ def run_read_case(rng, tier, res):
         if got in regvals:
             res.violation("register_data_taken_as_rxcmd", "cycle %d: last_rx_command=%#04x is the register-read data, most recent RxCmd is %#04x; wire: %s"
                           % (c, got, s_cmd[c - 1], fmt_wire(wire, c - 8, c)))
-            continue
-        qc = set(x for x in q_cmd[c - 1 - W:c] if x is not None) or {0}
-        reasons = [r for r in cmd_reason[c - 1 - W:c] if r]
-        if got in qc and reasons:
-            res.violation(reasons[0], "cycle %d: last_rx_command=%#04x but the most recent RxCmd is %#04x (presented while a register operation was pending); wire: %s"
-                          % (c, got, s_cmd[c - 1], fmt_wire(wire, c - 8, c)))
         else:
-            res.violation("status_last_rx_command_mismatch", "cycle %d: last_rx_command=%#04x, most recent RxCmd %#04x; wire: %s"
-                          % (c, got, s_cmd[c - 1], fmt_wire(wire, c - 8, c)))
+            res.violation("status_last_rx_command_mismatch", "cycle %d: last_rx_command=%#04x, most recent RxCmd outside a register operation %#04x; wire: %s"
+                          % (c, got, q_cmd[c - 1], fmt_wire(wire, c - 8, c)))
     for k in range(1, n):
         d, nx, byte, kind = wire[k]
         if d and wire[k - 1] and wire[k - 1][0] and not nx and kind == "cmd":
             res.event("rxcmds_presented")
             if busy[k]:
-                res.bin("rxcmd_while_regwrite_busy")
+                res.unjudged += 1
     res.nontrivial = res.events.get("reads_done", 0) >= 3
 
 
